@@ -41,6 +41,13 @@ func (r *RouteRegistry) RegisterWithMethod(route string, handler http.HandlerFun
 	r.registerWithMethod(route, handler, description, method, false)
 }
 
+// RegisterSecuredWithMethod registers a route that forwards client traffic to backends and must
+// therefore pass the full security chain (rate and size limits) like the proxy routes, but does
+// not use the proxy routes' prefix-stripping context.
+func (r *RouteRegistry) RegisterSecuredWithMethod(route string, handler http.HandlerFunc, description, method string) {
+	r.registerWithMethod(route, handler, description, method, true)
+}
+
 func (r *RouteRegistry) RegisterProxyRoute(route string, handler http.HandlerFunc, description string, method string) {
 	wrappedHandler := func(w http.ResponseWriter, req *http.Request) {
 		ctx := context.WithValue(req.Context(), constants.ContextRoutePrefixKey, route)
